@@ -5,6 +5,12 @@ ROOT = os.path.dirname(os.path.abspath(__file__))
 props = [json.loads(l) for l in open(os.path.join(ROOT, "properties.jsonl")) if l.strip()]
 na_path = os.path.join(ROOT, "props", "not_applicable.json")
 na = json.load(open(na_path)) if os.path.exists(na_path) else {}
+LEVELS = ["exploration", "fault_enumeration", "model_checking", "proof", "translation_validation", "other"]
+def level_of(cfg):
+    """`partial` is not a level of the schema: the deciding method is still proof + correspondence; what is
+    partial is said in the text, the level_note and the evidence (`coverage.partial`)."""
+    l = cfg.get("level", "proof")
+    return l if l in LEVELS else "proof"
 checks, not_app = [], []
 for p in props:
     pid = p["id"]
@@ -18,7 +24,7 @@ for p in props:
             "evidence_file": f"/verif/evidence/{pid}.json",
             "replay_cmd_template": f"./check {pid} --replay {{path}}",
             "engine": "lean4-proof+correspondence",
-            "level_claimed": {"category": cfg.get("level", "proof"), "text": cfg["level_text"], "design_ref": cfg.get("design_ref", "DESIGN.md §5 " + pid)},
+            "level_claimed": {"category": level_of(cfg), "text": ("[partial: see level_note / evidence] " if cfg.get("level") == "partial" else "") + cfg["level_text"], "design_ref": cfg.get("design_ref", "DESIGN.md §5 " + pid)},
             "level_note": cfg["level_note"],
             "technique": cfg.get("technique", "Lean 4 theorems about an executable model + differential correspondence with the Go code"),
         })
